@@ -135,6 +135,20 @@ pub fn judge(doc: &str, cfg: &FCfg, bin: Option<&std::path::Path>, dir: &std::pa
                 }
             }
         }
+        // "on another run": the same command writing to a file that an earlier, different run left behind
+        // (longer than this result, shorter, or absent) ends with exactly the bytes of this result
+        if let Res::Ok(p) = &a {
+            let mut longer = p.clone();
+            longer.extend_from_slice(b"<!-- the tail of an earlier, longer result -->\n<svg/>\n");
+            let shorter: Vec<u8> = p.iter().take(p.len() / 3).cloned().collect();
+            for (k, before) in [Some(&longer[..]), Some(&shorter[..]), None].into_iter().enumerate() {
+                let r = via_cli(bin, dir, &format!("{tag}-f{k}"), doc.as_bytes(), cfg, CliMode::FileToFile, before, Duration::from_secs(30));
+                match &r.res {
+                    Res::Ok(q) if q == p => {}
+                    other => return Some(format!("writing to an output file that held {} gives {} ({} bytes) where stdout gives {} bytes", match k { 0 => "a longer earlier result", 1 => "a shorter earlier result", _ => "nothing" }, other.kind(), match other { Res::Ok(q) => q.len(), _ => 0 }, p.len())),
+                }
+            }
+        }
     }
     None
 }
